@@ -26,6 +26,7 @@
 #include "helpers.h"
 #include "keyfile.h"
 
+#include <ctype.h>
 #include <errno.h>
 #include <float.h>
 #include <inttypes.h>
@@ -94,6 +95,13 @@ econf_err getInt64ValueNum(econf_file key_file, size_t num, int64_t *result) {
   return ECONF_SUCCESS;
 }
 
+/* strtoul/strtoull accept a leading '-' and return the negated value as unsigned */
+static bool is_negative_number(const char *value, unsigned long long converted) {
+  while (isspace((unsigned char)*value))
+    value++;
+  return *value == '-' && converted != 0;
+}
+
 econf_err getUIntValueNum(econf_file key_file, size_t num, uint32_t *result) {
   char *endptr;
   if (key_file.file_entry[num].value == NULL)
@@ -101,7 +109,7 @@ econf_err getUIntValueNum(econf_file key_file, size_t num, uint32_t *result) {
   errno = 0;
   unsigned long value = strtoul(key_file.file_entry[num].value, &endptr, 0);
   if (endptr == key_file.file_entry[num].value || errno == ERANGE || (errno != 0 && value == 0) ||
-      value > UINT32_MAX)
+      value > UINT32_MAX || is_negative_number(key_file.file_entry[num].value, value))
     return ECONF_VALUE_CONVERSION_ERROR;
   *result = (uint32_t) value;
   return ECONF_SUCCESS;
@@ -113,7 +121,8 @@ econf_err getUInt64ValueNum(econf_file key_file, size_t num, uint64_t *result) {
     return ECONF_KEY_HAS_NULL_VALUE;
   errno = 0;
   *result = strtoull(key_file.file_entry[num].value, &endptr, 0);
-  if (endptr == key_file.file_entry[num].value || errno == ERANGE || (errno != 0 && *result == 0))
+  if (endptr == key_file.file_entry[num].value || errno == ERANGE || (errno != 0 && *result == 0) ||
+      is_negative_number(key_file.file_entry[num].value, *result))
     return ECONF_VALUE_CONVERSION_ERROR;
   return ECONF_SUCCESS;
 }
